@@ -152,6 +152,15 @@ def _is_dispatcher(v):
     return hasattr(v, 'py_func') and callable(getattr(v, 'py_func', None))
 
 
+def pyfunc_of(f):
+    """The plain Python function behind a numba dispatcher / vectorize DUFunc / method."""
+    if _is_dispatcher(f):
+        return f.py_func
+    if type(f).__name__ == 'DUFunc':    # numba.vectorize
+        return f._dispatcher.py_func
+    return getattr(f, '__func__', f)
+
+
 def _fix_defaults(d):
     if d is None:
         return None
@@ -160,12 +169,7 @@ def _fix_defaults(d):
 
 def rebind_function(f, G):
     """f: plain function or numba dispatcher/vectorize object.  G: globals dict to run in."""
-    if _is_dispatcher(f):
-        f = f.py_func
-    elif hasattr(f, '_python_func'):      # numba.vectorize DUFunc
-        f = f._python_func
-    elif hasattr(f, 'py_func'):
-        f = f.py_func
+    f = pyfunc_of(f)
     g = types.FunctionType(f.__code__, G, f.__name__, _fix_defaults(f.__defaults__), f.__closure__)
     if f.__kwdefaults__:
         g.__kwdefaults__ = {k: _NPTYPE_TO_SHIM.get(v, v) if isinstance(v, type) else v for k, v in f.__kwdefaults__.items()}
@@ -189,7 +193,7 @@ class Rebound:
         for k, v in list(mod.__dict__.items()):
             if k in (overrides or {}):
                 continue
-            if _is_dispatcher(v) or hasattr(v, '_python_func') or (
+            if _is_dispatcher(v) or type(v).__name__ == 'DUFunc' or (
                     isinstance(v, types.FunctionType) and v.__module__ == mod.__name__):
                 g = rebind_function(v, G)
                 G[k] = g
@@ -234,11 +238,7 @@ def source_hash(*objs):
     h = hashlib.sha256()
     names = []
     for o in objs:
-        f = o
-        if _is_dispatcher(f):
-            f = f.py_func
-        elif hasattr(f, '_python_func'):
-            f = f._python_func
+        f = pyfunc_of(o)
         try:
             src = inspect.getsource(f)
         except Exception:
